@@ -55,6 +55,16 @@ def add_dynamic_children(rng, base):
     kind = rng.choice(["map", "switch", "reduce", "map+switch"])
     if "map" in kind or kind == "reduce":
         base.cscripts[uid] = gen_key_history(rng, base.start, base.end, rng.choice([2, 3, 5]))
+        if rng.random() < 0.4:
+            # keys only ever arrive: every child is still alive when the map itself is stopped (shutdown sweep over several
+            # live children, the k-th of which may fail to stop)
+            kept = []
+            for e in base.cscripts[uid]:
+                t, ops = e.split("|")
+                ops = [o for o in ops.split(",") if not o.startswith("x[") and o != "c"]
+                if ops:
+                    kept.append(f"{t}|" + ",".join(ops))
+            base.cscripts[uid] = kept or base.cscripts[uid]
         main.append(S("dyn_d", "csrc", shape="tsd", uid=uid))
         uid += 1
     if "map" in kind:
@@ -92,7 +102,7 @@ def add_dynamic_children(rng, base):
 
 
 def generate(rng, tier, seed):
-    nprog = 20 if tier == "quick" else 300
+    nprog = 30 if tier == "quick" else 300
     cases = []
     for p in range(nprog):
         base = gen_case(rng, f"c14_{seed}_{p}", n_nodes=rng.choice([2, 3, 5, 8]), max_depth=2,
@@ -101,7 +111,8 @@ def generate(rng, tier, seed):
         dyn_uids = add_dynamic_children(rng, base) if p % 2 == 1 else []
         plans = fault_space(rng, base, tier)
         for u in dyn_uids:
-            plans += [[(u, "start", rng.choice([1, 2]))], [(u, "stop", 1)], [(u, "eval", 1)], [(u, "eval", rng.choice([2, 3, 5]))]]
+            plans += [[(u, "start", rng.choice([1, 2]))], [(u, "stop", 1)], [(u, "stop", rng.choice([2, 3]))], [(u, "eval", 1)],
+                      [(u, "eval", rng.choice([2, 3, 5]))]]
         base.meta["dynamic"] = bool(dyn_uids)
         k = 0
         for plan in plans:
